@@ -282,7 +282,54 @@ def check_modifications(repo, rep):
                 if probs:
                     rep.violation(rid, f"modify|{changed}", f"{key}: " + "; ".join(probs))
                 rep.instance(rid, key, {"case": key, "orders": {o.name: describe(o) for o in allo}})
-    rep.floor(rid, 8)
+    # a declaration that went through one pass and is then changed IN PLACE (self.stop_loss[0, 1] = x on the array the strategy
+    # holds - a trailing stop): the remembered declaration must be a copy, or the change is compared with itself and the stale exit survives
+    for ptype, sg in (("long", 1), ("short", -1)):
+        for kind in ("sl", "tp"):
+            def mk(dec, sg=sg, kind=kind):
+                it = Interp(repo, stubs=W.base_stubs(), samples=[{k: (2 * CUR - v if sg < 0 and k.startswith(("sl_", "tp_")) else v) for k, v in smp.items()}],
+                            nonneg=set(smp), decisions=dec)
+                w = build(repo, it, sg)
+                st = w["strat"]
+                exit_side = S["sell"] if sg > 0 else S["buy"]
+                qx = -A("q") if sg > 0 else A("q")
+                o_sl = W.make_order(repo, "OLD_SL", exit_side, T["STOP"], qx, A("sl_old"), reduce_only=True, status=ACTIVE, extra={"submitted_via": SV["sl"]})
+                o_tp = W.make_order(repo, "OLD_TP", exit_side, T["LIMIT"], qx, A("tp_old"), reduce_only=True, status=ACTIVE, extra={"submitted_via": SV["tp"]})
+                for o in (o_sl, o_tp):
+                    w["orders"].attrs["storage"][KEY].append(o)
+                    w["orders"].attrs["active_storage"][KEY].append(o)
+                row = lambda *r: Arr2([Arr(list(x)) for x in r])
+                st.attrs["_stop_loss"] = row((A("q"), A("sl_old")))
+                st.attrs["_take_profit"] = row((A("q"), A("tp_old")))
+                st.attrs["stop_loss"] = row((A("q"), A("sl_old")))
+                st.attrs["take_profit"] = row((A("q"), A("tp_old")))
+                attr = "stop_loss" if kind == "sl" else "take_profit"
+                st.attrs[attr] = (A("q"), A(f"{kind}_new"))
+                ent = row((A("P"), A("E")))
+                st.attrs["buy" if sg > 0 else "sell"] = ent
+                st.attrs["_buy" if sg > 0 else "_sell"] = Arr2([Arr(list(r.items)) for r in ent.rows])
+
+                def go(it):
+                    it.call(it.getattr(st, "_detect_and_handle_entry_and_exit_modifications"), [], {})
+                    cur = st.attrs[attr]
+                    if not isinstance(cur, Arr2):
+                        raise NotInFragment(f"self.{attr} is not normalised to an array after a pass: {cur!r}")
+                    cur.rows[0].items[1] = A(f"{kind}_new2")          # self.stop_loss[0, 1] = x
+                    it.call(it.getattr(st, "_detect_and_handle_entry_and_exit_modifications"), [], {})
+                return it, go
+            for out in explore(mk, 64):
+                key = f"{ptype}|{kind}|in-place-after-a-pass"
+                if out.kind != "return":
+                    rep.violation(rid, f"modify|{kind}|in-place|raises", f"{key}: raises {out.value}")
+                    continue
+                allo = submitted(out.interp.w)
+                mine = [o for o in allo if o.attrs.get("submitted_via") == SV[kind]]
+                act = [o for o in mine if o.attrs["status"] == ACTIVE]
+                if not (len(act) == 1 and isinstance(act[0].attrs.get("price"), R) and act[0].attrs["price"].same(A(f"{kind}_new2"))):
+                    rep.violation(rid, f"modify|{kind}|in-place", f"{key}: the declaration was changed to {kind}_new, went through one pass, and was then changed in place to {kind}_new2; "
+                                  f"active {kind} orders are now {[describe(o) for o in act]} - expected exactly one at {kind}_new2 (a stale exit survives the modification)")
+                rep.instance(rid, key, {"case": key, "orders": {o.name: describe(o) for o in allo}})
+    rep.floor(rid, 12)
 
 
 def check_open_position_tags(repo, rep):
